@@ -100,15 +100,21 @@ func runC06(c *Ctx) {
 					}
 				}
 				infallible := infallibleIdiom(c, call, 0)
-				_, suppressed := c06Suppress[construct]
+				supKey := construct
+				if cname == "tdx.MRTD" && load.RelPkg(f) == "tdx" {
+					// the named suppression is about the callee and the shape of the site (below), not about
+					// the name of the function the site happens to live in
+					supKey = "tdx.generateAllPossibleMRTDs→tdx.MRTD"
+				}
+				_, suppressed := c06Suppress[supKey]
 				suppressed = suppressed && !used // the suppression names the one discarding call site
-				if suppressed && construct == "tdx.generateAllPossibleMRTDs→tdx.MRTD" {
+				if suppressed && supKey == "tdx.generateAllPossibleMRTDs→tdx.MRTD" {
 					// the reason given in the table must hold at this site: the same callee was already
 					// called with the same options object and the same image, and its error is known nil here
 					suppressed = repeatsCheckedCall(call, ei)
 				}
 				if !used {
-					if why, ok := c06Suppress[construct]; ok && suppressed {
+					if why, ok := c06Suppress[supKey]; ok && suppressed {
 						c.S.OK("R1", construct, c.pos(call.Pos()), "suppressed (one named symbol): "+why, false)
 					} else if why := infallible; why != "" {
 						c.S.OK("R1", construct, c.pos(call.Pos()), "infallible by construction: "+why, true)
@@ -174,23 +180,26 @@ func runC06(c *Ctx) {
 	imgField := func(v ssa.Value) bool { return flow.IsFieldLoad(v, endorsePkg, "Context", "Image") }
 	var imgPaths []flow.AccessPath
 	nImg := 0
-	for _, call := range callsIn(gm, func(call ssa.CallInstruction) bool {
-		f := call.Common().StaticCallee()
-		if f == nil {
-			return false
+	gmRegion := unexportedRegion(gm) // GoldenMeasurement and the unexported helpers it may be split into
+	for _, rf := range gmRegion {
+		for _, call := range callsIn(rf, func(call ssa.CallInstruction) bool {
+			f := call.Common().StaticCallee()
+			if f == nil {
+				return false
+			}
+			if f.String() == "crypto/sha512.Sum384" {
+				return true
+			}
+			rel := load.RelPkg(f)
+			return (rel == "sev" || rel == "tdx") && len(call.Common().Args) > 0 && call.Common().Args[0].Type().String() == "[]byte"
+		}) {
+			nImg++
+			a := call.Common().Args[0]
+			p := flow.PathOf(a)
+			okp := imgField(a) && len(p.Fields) == 1
+			c.S.Check(okp, "R3", "endorse.GoldenMeasurement→"+callName(call)+":image", c.pos(call.Pos()), "operand is Context.Image", "operand is not the Context.Image field itself: "+flow.Describe(a))
+			imgPaths = append(imgPaths, liftPaths(a, gm, gmRegion, 0)...)
 		}
-		if f.String() == "crypto/sha512.Sum384" {
-			return true
-		}
-		rel := load.RelPkg(f)
-		return (rel == "sev" || rel == "tdx") && len(call.Common().Args) > 0 && call.Common().Args[0].Type().String() == "[]byte"
-	}) {
-		nImg++
-		a := call.Common().Args[0]
-		p := flow.PathOf(a)
-		okp := imgField(a) && len(p.Fields) == 1
-		c.S.Check(okp, "R3", "endorse.GoldenMeasurement→"+callName(call)+":image", c.pos(call.Pos()), "operand is Context.Image", "operand is not the Context.Image field itself: "+flow.Describe(a))
-		imgPaths = append(imgPaths, p)
 	}
 	c.S.Floor("R3", "digest / technology measurement calls in GoldenMeasurement", 3, nImg)
 	same := true
@@ -547,7 +556,24 @@ func runC06(c *Ctx) {
 			}
 		}
 	}
-	c.S.Floor("R8", "measurement calls inside loops", 2, nLoopCalls)
+	// for the floor, a loop whose body was extracted into a helper still counts: calls in loops to
+	// functions of S that reach a measurement primitive
+	nLoopReach := 0
+	for _, f := range fns {
+		loops := naturalLoops(f)
+		for _, call := range callsIn(f, func(call ssa.CallInstruction) bool { cal := call.Common().StaticCallee(); return cal != nil && S[cal] }) {
+			if innermostLoopOf(loops, call.Block()) == nil {
+				continue
+			}
+			for g := range c.reachable([]*ssa.Function{call.Common().StaticCallee()}, nil) {
+				if prims[g] {
+					nLoopReach++
+					break
+				}
+			}
+		}
+	}
+	c.S.Floor("R8", "calls inside loops that reach a measurement primitive", 2, nLoopReach)
 
 	// ---- R6 ----
 	var marshals []*ssa.Call
